@@ -25,6 +25,8 @@ enum StreamMessage {
     WaitingWritable(/* stream ID */ u64),
     /// stream ID, shutdown direction (`None` means both directions)
     Shutdown(u64, Option<quiche::Shutdown>),
+    /// stream ID, error code: the response is abandoned before its end
+    Reset(u64, u64),
 }
 
 struct Stream {
@@ -63,6 +65,11 @@ struct StreamSink {
     /// In some cases may be assigned to different values
     /// (see [`StreamSink::wait_writable()`]) to avoid busy loops.
     data_frame_overhead: usize,
+    /// Whether the end of the response has been sent. A sink dropped before that resets
+    /// the stream, so the client can tell an abandoned response from a complete one.
+    finished: bool,
+    /// The error code the stream is reset with in that case
+    reset_code: u64,
     id: log_utils::IdChain<u64>,
 }
 
@@ -87,6 +94,9 @@ impl Http3Codec {
             }
             StreamMessage::Shutdown(stream_id, direction) => {
                 self.on_stream_shutdown(stream_id, direction)
+            }
+            StreamMessage::Reset(stream_id, error_code) => {
+                self.on_stream_reset(stream_id, error_code)
             }
         }
     }
@@ -115,6 +125,24 @@ impl Http3Codec {
         if close_write && !stream.write_shutdown {
             self.socket
                 .shutdown_stream(stream_id, quiche::Shutdown::Write);
+            stream.write_shutdown = true;
+        }
+
+        if stream.read_shutdown && stream.write_shutdown {
+            self.streams.remove(&stream_id);
+        }
+
+        Ok(())
+    }
+
+    fn on_stream_reset(&mut self, stream_id: u64, error_code: u64) -> io::Result<()> {
+        let stream = self
+            .streams
+            .get_mut(&stream_id)
+            .ok_or_else(|| io::Error::from(ErrorKind::NotFound))?;
+
+        if !stream.write_shutdown {
+            self.socket.reset_stream(stream_id, error_code);
             stream.write_shutdown = true;
         }
 
@@ -159,6 +187,11 @@ impl Http3Codec {
     ) -> io::Result<Box<dyn http_codec::Stream>> {
         let (readable_tx, readable_rx) = mpsc::channel(1);
         let (writable_tx, writable_rx) = mpsc::channel(1);
+        let reset_code = if request.method == http::Method::CONNECT {
+            quiche::h3::WireErrorCode::ConnectError
+        } else {
+            quiche::h3::WireErrorCode::InternalError
+        } as u64;
 
         let id = self.parent_id_chain.extended(log_utils::IdItem::new(
             log_utils::CONNECTION_ID_FMT,
@@ -190,6 +223,8 @@ impl Http3Codec {
                 writable_event_rx: writable_rx,
                 codec_tx: self.codec_tx.clone(),
                 data_frame_overhead: net_utils::MIN_USABLE_QUIC_STREAM_CAPACITY,
+                finished: false,
+                reset_code,
                 id,
             },
         }))
@@ -316,6 +351,7 @@ impl StreamMessage {
         match self {
             StreamMessage::WaitingWritable(stream_id) => *stream_id,
             StreamMessage::Shutdown(stream_id, _) => *stream_id,
+            StreamMessage::Reset(stream_id, _) => *stream_id,
         }
     }
 }
@@ -405,7 +441,7 @@ impl http_codec::PendingRespond for StreamSink {
     }
 
     fn send_response(
-        self: Box<Self>,
+        mut self: Box<Self>,
         response: ResponseHeaders,
         eof: bool,
     ) -> io::Result<Box<dyn http_codec::RespondedStreamSink>> {
@@ -420,6 +456,7 @@ impl http_codec::PendingRespond for StreamSink {
         self.socket.send_response(self.stream_id, response, false)?;
 
         if eof {
+            self.finished = true;
             self.codec_tx
                 .send(StreamMessage::Shutdown(self.stream_id, None))
                 .map_err(|e| {
@@ -439,7 +476,9 @@ impl http_codec::RespondedStreamSink for StreamSink {
         self
     }
 
-    fn into_datagram_sink(self: Box<Self>) -> Box<dyn http_codec::DroppingSink> {
+    fn into_datagram_sink(mut self: Box<Self>) -> Box<dyn http_codec::DroppingSink> {
+        // a stream of datagrams has no end of its own: it is over when the sink is dropped
+        self.finished = true;
         self
     }
 }
@@ -471,6 +510,7 @@ impl pipe::Sink for StreamSink {
     fn eof(&mut self) -> io::Result<()> {
         self.socket
             .shutdown_stream(self.stream_id, quiche::Shutdown::Write);
+        self.finished = true;
         Ok(())
     }
 
@@ -514,10 +554,14 @@ impl http_codec::DroppingSink for StreamSink {
 
 impl Drop for StreamSink {
     fn drop(&mut self) {
-        match self.codec_tx.send(StreamMessage::Shutdown(
-            self.stream_id,
-            Some(quiche::Shutdown::Write),
-        )) {
+        let message = if self.finished {
+            StreamMessage::Shutdown(self.stream_id, Some(quiche::Shutdown::Write))
+        } else {
+            // whatever made the owner give up, the client must not take what it has
+            // received for the whole response
+            StreamMessage::Reset(self.stream_id, self.reset_code)
+        };
+        match self.codec_tx.send(message) {
             Ok(_) => (),
             Err(e) => log_id!(debug, self.id, "Failed to notify of write shutdown: {}", e),
         }
